@@ -159,14 +159,19 @@ def _get_fmtval_interp_strs(self: fst.FST) -> tuple[str | None, str | None, int,
     if not get_dbg and not get_val:
         return None, None, 0, 0
 
+    conts = set()  # indexes of lines which end in a line continuation, the debug string does not have the backslash or the newline
+
     if _HAS_FSTR_COMMENT_BUG:  # '#' characters inside strings erroneously removed as if they were comments
         lines = self._get_src(sln, scol + 1, end_ln, end_col, True)
 
         for i, l in enumerate(lines):
             m = re_line_end_cont_or_comment.search(l)  # always matches
 
-            if (g := m.group(1)) and g.startswith('#'):  # line ends in comment, nuke it
-                lines[i] = l[:m.start(1)]
+            if g := m.group(1):
+                if g.startswith('#'):  # line ends in comment, nuke it
+                    lines[i] = l[:m.start(1)]
+                elif i < len(lines) - 1:  # line continuation, also joined inside strings by these versions of python
+                    conts.add(i)
 
     else:
         lns = set()
@@ -208,7 +213,7 @@ def _get_fmtval_interp_strs(self: fst.FST) -> tuple[str | None, str | None, int,
                 if (g := m.group(1)) and g.startswith('#'):  # line ends in comment, nuke it
                     lines[i] = l[:m.start(1)]
 
-    dbg_str = '\n'.join(lines) if get_dbg else None
+    dbg_str = ''.join(l[:-1] if i in conts else l + '\n' for i, l in enumerate(lines))[:-1] if get_dbg else None
 
     if not get_val:
         val_str = None
